@@ -46,7 +46,7 @@ int main(int argc, char** argv)
     find(child);
     ptrace(PTRACE_SYSCALL, child, 0, 0);
     FILE* const logf = (mode == 0 && getenv("KILLAT_LOG")) ? fopen(getenv("KILLAT_LOG"), "w") : NULL;    /* index, syscall number, first argument of every syscall entry */
-    int nSigintActions = 0, creatAfterLastSigaction = 0;
+    int nSigintActions = 0, creatAfterLastSigaction = 0, creatAfterAction = 0;
     long count = 0; int mainStatus = -1; int done = 0; long actedAt = 0; long sysno = -1; int sawExec = 0;
     while (!done) {
         pid_t const p = waitpid(-1, &st, __WALL);
@@ -61,6 +61,7 @@ int main(int argc, char** argv)
                 {   struct user_regs_struct lr;
                     if (ptrace(PTRACE_GETREGS, p, 0, &lr) == 0) {
                         if (logf) fprintf(logf, "%ld %lld %lld\n", count, (long long)lr.orig_rax, (long long)lr.rdi);
+                        if (actedAt && (lr.orig_rax == SYS_openat && (lr.rdx & O_CREAT))) creatAfterAction = 1;     /* a file creation that was already under way when the signal was sent (another thread's syscall was the k-th) */
                         if (!actedAt) {      /* what happened up to and including the syscall at which the signal is injected (it completes before the signal is delivered), in this very run */
                             if (lr.orig_rax == SYS_rt_sigaction && lr.rdi == SIGINT) { nSigintActions++; creatAfterLastSigaction = 0; }
                             if (lr.orig_rax == SYS_openat && (lr.rdx & O_CREAT)) creatAfterLastSigaction = 1;
@@ -85,7 +86,7 @@ int main(int argc, char** argv)
     else snprintf(stbuf, sizeof stbuf, "signal %d", WTERMSIG(mainStatus));
     if (logf) fclose(logf);
     if (mode == 0) printf("N=%ld status=%s\n", count, stbuf);
-    else if (actedAt) printf("%s=%ld sysno=%ld status=%s sigint_actions_before=%d creat_after_last_sigint_action=%d\n", mode == 1 ? "killed_at" : "int_at", actedAt, sysno, stbuf, nSigintActions, creatAfterLastSigaction);
+    else if (actedAt) printf("%s=%ld sysno=%ld status=%s sigint_actions_before=%d creat_after_last_sigint_action=%d\n", mode == 1 ? "killed_at" : "int_at", actedAt, sysno, stbuf, nSigintActions, creatAfterLastSigaction | creatAfterAction);
     else printf("finished N=%ld status=%s\n", count, stbuf);
     return 0;
 }
